@@ -93,6 +93,9 @@ def pwl_fn_events(tf, tfl, ctx, rng, n, with_layer=True):
       kps = float(imin) + np.concatenate([[0.0], np.cumsum(dl)]) if fin else np.zeros(1)
       site = {"layer": "pwl_calibration_fn",
               "sub_resolution_segment": bool(fin and float(np.min(dl)) < res),
+              # a segment so short that the float32 rounding of (x - keypoint) is amplified beyond the comparison
+              # tolerance by the division through its length (relevant for C14's comparison of two float32 evaluations)
+              "short_segment": bool(fin and float(np.min(dl)) < 2e-3 * max(1.0, abs(float(imin)), abs(float(imax)))),
               # the two ways the known finding shows: an end segment below resolution (the clamp / cyclic end value
               # is not reached) and a probe sitting on the left end of a collapsed segment (0/0)
               "end_segment_sub_resolution": bool(fin and (float(dl[0]) < res or float(dl[-1]) < res)),
